@@ -1194,6 +1194,16 @@ func (g *G) whileStmt(d int) []*Node {
 	for i := 0; i < n; i++ {
 		body.Kids = append(body.Kids, g.Stmt(d-1)...)
 	}
+	if g.O.Templates && g.O.BreakInIf && g.intn(6, "loopHoleJump") == 0 {
+		// a template assembled in the loop body whose hole takes a break / continue: the round (or the loop) ends with the
+		// template half assembled
+		h := &Node{K: "hole", Q: g.intn(2, "hjStyle"), Kids: []*Node{N("if", g.intExpr(d-1), Block(N([]string{"break", "continue"}[g.intn(2, "hjKind")])), None())}}
+		t := &Node{K: "tmpl", Q: 2 + g.intn(2, "hjQ"), Kids: []*Node{{K: "part", S: "a"}, h, {K: "part", S: "b"}}}
+		name := g.FreshName()
+		g.Env.Put(&VarInfo{Name: name, T: TAny, Len: -1})
+		at := 1 + g.intn(len(body.Kids), "hjAt")
+		body.Kids = append(body.Kids[:at:at], append([]*Node{Set(name, t)}, body.Kids[at:]...)...)
+	}
 	if g.intn(4, "loopBreakTop") == 0 {
 		// top-level break/continue in the loop body (not inside an if)
 		body.Kids = append(body.Kids, N([]string{"break", "continue"}[g.intn(2, "brkKind")]))
